@@ -781,6 +781,20 @@ class LoopSummary:
                     pass
             lf.loop_names = {p.res: fn.varnames.get(p.res, p.res) for p in phis}
             leaves.append(lf)
+        # values of the loop variables at the header (hence behind the exit), by source name - read by rules that tie the code behind
+        # the loop to the result of the loop (C04 B10)
+        if not hasattr(self, 'exit_vals'):
+            self.exit_vals = {}
+        ev = {}
+        for p_ in phis:
+            try:
+                ref = fn.varnames.get(p_.res)
+                nm = fn.module.var_name(ref) if ref else None
+            except Exception:
+                nm = None
+            if nm:
+                ev[nm] = vp[p_.res]
+        self.exit_vals[(fn.name, hdr.name)] = ev
         self.notes.append('%s: loop at %s summarised (%d closed forms, %d bounded values, %d iteration paths)' % (
             fn.name, hdr.name, len(steps_p) + len(steps_c), len(set(c[0] for c in cand)), len(ro2)))
         return rets2
